@@ -36,7 +36,7 @@ Definition sexp_module (ss : list stmt) : string :=
 
 Definition drive_toks (T : ptab) (m : mode) (pts : list ptoken) : line :=
   let ts := map classify pts in
-  let f := default_fuel ts in
+  let f := parse_fuel ts in
   match m with
   | MExpr => finish pts sexp_e (parse_expression T f ts)
   | MStmt => finish pts sexp_s (parse_statement T f ts)
